@@ -28,6 +28,8 @@ using namespace bpp;
 
 using namespace std;
 
+constexpr int BppODiscreteDistributionFormat::MAX_NUMBER_OF_CLASSES;
+
 
 // Content of a parenthesised list argument, e.g. "(0.1,0.9)".
 static string listContent_(const string& arg, const string& argName)
@@ -180,7 +182,7 @@ unique_ptr<DiscreteDistributionInterface> BppODiscreteDistributionFormat::readDi
     int n = TextTools::toInt(args["n"]); // raises if not an integer
     if (n < 1)
       throw Exception("The number of classes 'n' must be at least 1 in " + distName + " distribution");
-    if (n > 1000000)
+    if (n > MAX_NUMBER_OF_CLASSES)
       throw Exception("The number of classes 'n' is too large in " + distName + " distribution: " + args["n"]);
     unsigned int nbClasses = static_cast<unsigned int>(n);
 
